@@ -352,6 +352,7 @@ class Case:
         self.keyf = None         # with keyc: [function name code points]: the text is Coq chain_fun_path (steps, then .name() each)
         self.keyc = None         # [(quote code point or 0 for the dot spelling, key code points)]: path == Coq chain_path
         self.keyq = None         # (quote code point, key code points): the driver confirms path == Coq key_path
+        self.pinned = False      # model side: parse with the grammar of the pinned tree (GrammarPinned.v), not the regenerated one
 
     def go_json(self):
         return json.dumps({'id': self.id, 'mode': self.mode, 'path_hex': hx(self.path),
@@ -397,6 +398,8 @@ class Case:
                 parts.append('(pad %d %d)' % self.pad)
         if self.keyf:
             parts.append('(keyf %s)' % ' '.join('(%s)' % ' '.join(str(x) for x in f) for f in self.keyf))
+        if self.pinned:
+            parts.append('(pinned 1)')
         parts.append('(mode %s))' % self.mode)
         return ' '.join(parts)
 
@@ -404,7 +407,7 @@ class Case:
         return {'id': self.id, 'path': self.path.decode('utf-8', 'backslashreplace'), 'path_hex': hx(self.path),
                 'filters': self.filters, 'aggs': self.aggs, 'accessor': self.acc, 'nocfg': self.nocfg,
                 'docs': [doc_json_text(d) for d in self.docs], 'docs_desc': [doc_go(d) for d in self.docs],
-                'mode': self.mode, 'meta': self.meta, 'alias': self.alias}
+                'mode': self.mode, 'meta': self.meta, 'alias': self.alias, 'pinned': self.pinned}
 
 
 def parse_obs_line(line):
